@@ -197,14 +197,25 @@ def extra_tags(rnd, n):
             tag = edit(rnd, tag)
         qi, qc = inst, comp
         r = rnd.random()
-        if r < 0.1:
+        if r < 0.08:
             qi = edit(rnd, inst)
-        elif r < 0.2:
+        elif r < 0.16:
             qc = None if comp is not None else b"cd"
-        elif r < 0.25 and comp is not None:
+        elif r < 0.20 and comp is not None:
             qc = edit(rnd, comp)
-        elif r < 0.3:
+        elif r < 0.25:
             qi = inst.split(b"_")[0]
+        elif r < 0.45 and comp is not None:
+            # an expected component RELATED to the tag's: proper prefix / extension / last char different / empty
+            k = rnd.randrange(5)
+            qc = [comp[:rnd.randrange(0, len(comp))], comp[:-1], comp + bytes([rnd.choice(LOW + DIG)]),
+                  comp + b"-" + bytes([rnd.choice(LOW)]), comp[:-1] + bytes([rnd.choice(LOW + DIG)])][k]
+        elif r < 0.60:
+            # likewise for the expected instance, incl. adding / extending / truncating an instance key
+            k = rnd.randrange(6)
+            qi = [inst[:rnd.randrange(0, len(inst))], inst[:-1], inst + bytes([rnd.choice(LOW + DIG)]),
+                  inst + b"_" + bytes([rnd.choice(LOW + DIG)]), inst[:-1] + bytes([rnd.choice(LOW + DIG)]),
+                  inst + b"-" + bytes([rnd.choice(LOW)])][k]
         out.append((tag, qi, qc))
     return out
 
